@@ -323,6 +323,12 @@ pub fn check_row(sm: &Sem, relaxed: bool, observer: Option<(f64, f64)>, pre: Opt
     }
     if sm.all_any {
         out.branches.push("format-unconstrained");
+        if sm.df == 18 {
+            // bits 6-8 of DF18 are the control field CF, not a transponder capability: what gates Comm-B
+            // decoding (recorded capability, BDS 1,7 report) is never touched by a DF18 squitter
+            same(&mut out, "not-carried", "capability", &old.ca, &post.ca);
+            same(&mut out, "not-carried", "BDS 1,7 report", &(old.cap_flags, old.cap), &(post.cap_flags, post.cap));
+        }
         return out;
     }
     // a DF20/21 that creates the row may contribute the address only
